@@ -12,8 +12,12 @@ import json, os, re, shutil, subprocess, sys
 pid, k = sys.argv[1], sys.argv[2]
 src = f"/tmp/seed_out/{pid}"
 dst = f"/verif/seeded/{pid}-{k}"
-r = subprocess.run(["/venv/bin/python", "/verif/tools/verify_seed.py", pid, k, "--tests"], capture_output=True, text=True)
+reuse = "--reuse-tests" in sys.argv and os.path.exists(f"{dst}/meta.json")
+r = subprocess.run(["/venv/bin/python", "/verif/tools/verify_seed.py", pid, k] + ([] if reuse else ["--tests"]), capture_output=True, text=True)
 res = json.loads(r.stdout)
+if reuse:
+    old = json.load(open(f"{dst}/meta.json"))["what_was_run"]["pinned_tests_with_change"]
+    res["tests_passing"], res["tests_missing"] = old["stable_tests_passing"], old["missing"]
 notes = open(f"{src}/notes{k}.md").read() if os.path.exists(f"{src}/notes{k}.md") else ""
 need = ""
 for line in notes.splitlines():
